@@ -76,7 +76,8 @@ def run(module, cfg, name=None, overrides=None, workers=16, on_gen=None, on_line
     cmd += ["-cp", TLA_CP, "tlc2.TLC", "-workers", str(workers), "-metadir", os.path.join(d, "meta"),
             "-noGenerateSpecTE", "-config", cfg]
     if simulate is not None:
-        cmd += ["-simulate", "num=%d" % simulate]
+        # `num' is per worker in this TLC build
+        cmd += ["-simulate", "num=%d" % max(1, -(-simulate // workers))]
         if depth:
             cmd += ["-depth", str(depth)]
         if seed is not None:
